@@ -185,10 +185,7 @@ def run(ctx):
             continue
         m_rounds, m_final, m_trace, m_hist = int(parts[1]), int(parts[2]), parts[3], common.parse_list(parts[4])
         impl_trace = ",".join(e["phase"] for e in tr.events)
-        impl_hist = []
-        for l in labs:
-            ids = [i for i, lab in pool.items() if lab == l]
-            impl_hist.append(ids[0] if ids else -1)
+        impl_hist = [(m_hist[j] if j < len(m_hist) and l == pool.get(m_hist[j]) else -1) for j, l in enumerate(labs)]
         if (len(labs) != m_rounds or impl_trace != m_trace or impl_hist != m_hist
                 or [int(x) for x in res.point_labels if int(x) >= 0] != pool[m_final]):
             ctx.violation("correspondence-break", "main-loop model vs fit_stacked_data on a scripted history",
